@@ -154,8 +154,11 @@ impl NameCompressor {
         }
 
         // If there is a non-empty uncompressed prefix, register it as a new
-        // entry here.
-        if !name.is_empty() && contents.len() < 16384 {
+        // entry here. A compression pointer holds a 14-bit offset from the
+        // start of the message (i.e. including the 12-byte header), and it
+        // may refer to any label of the entry, so the whole entry has to lie
+        // within the first 16KiB of the message.
+        if !name.is_empty() && 12 + contents.len() + name.len() <= 16384 {
             // SAFETY: 'name' is a non-empty sequence of labels.
             let first = unsafe {
                 LabelIter::new_unchecked(name).next().unwrap_unchecked()
@@ -316,7 +319,11 @@ impl NameCompressor {
 
         // If there is a non-empty uncompressed prefix, register it as a new
         // entry here. We already know what the hash of its last label is.
-        if !name.is_empty() && contents.len() < 16384 {
+        // A compression pointer holds a 14-bit offset from the start of the
+        // message (i.e. including the 12-byte header), and it may refer to
+        // any label of the entry, so the whole entry has to lie within the
+        // first 16KiB of the message.
+        if !name.is_empty() && 12 + contents.len() + name.len() <= 16384 {
             // Pick the entry that was least recently used (or uninitialized).
             //
             // By the invariants of 'last_use', it is guaranteed that this
